@@ -322,7 +322,7 @@ structure Slot where
   repeated : Bool
   isMap : Bool
   isValue : Bool
-  ctor : Option Nat     -- number of the TOP-LEVEL request field called `field.name`, if any (pb2 constructor keyword)
+  ctor : Option Nat     -- number of the TOP-LEVEL request field called `field.name`, if any (constructor keyword; raw or proto-plus request class)
   rawOwner : Bool       -- the message that OWNS the terminal field is a raw protobuf class (not proto-plus)
   isMsg : Bool          -- singular message-typed field
 deriving Repr, DecidableEq
@@ -332,7 +332,7 @@ def Field.isSingularMessage (f : Field) : Bool :=
 
 def Entry.slot (input : MsgDef) (e : Entry) : Slot :=
   ⟨e.path, e.field.repeated, e.field.isMap, e.field.isValue,
-   (input.fields.find? (fun f => f.pbName == e.param)).map (·.number),
+   (input.lookup e.param).map (·.number),      -- the constructor keyword is looked up like an attribute: `Field.name` of the request class
    !e.last.ownerPP, e.field.isSingularMessage⟩
 
 /-- a flattened key with the argument the caller passed (`none` = left at its default `None`) -/
